@@ -29,6 +29,11 @@ class HA {
     @tracked public qubit[3] ta;
     public constructor() -> HA = default;
 }
+class HG<T> {
+    @tracked public qubit gq;
+    public T tag;
+    public constructor() -> HG<T> = default;
+}
 class HD {
     public qubit dq;
     public constructor() -> HD = default;
@@ -208,7 +213,7 @@ PROFILES = {
                     misuse=0, alias=0, block=4, measure_reg=2),
 }
 
-NEED = {"H1": 3, "HT": 1, "H2": 4, "HA": 3, "HD": 2}     # HD: its own qubit + the one its destructor declares     # qubits owned by an instance
+NEED = {"H1": 3, "HT": 1, "H2": 4, "HA": 3, "HD": 2, "HG": 1}     # HD: its own qubit + the one its destructor declares     # qubits owned by an instance
 REGFIELD = {"H1": ("qs", 2), "HA": ("ta", 3)}   # the qubit[] field of a class
 
 ANGLES = [0.5, -0.5, 1.5, 0.25, 3.0, -2.75, 0.125, 6.25, 0.0, 1.0, -1.0, 0.0078125, 100.5,
@@ -266,6 +271,8 @@ class Gen:
                     out.append(("fe", name, "ta", i))
             elif cls == "HD":
                 out.append(("f", name, "dq"))
+            elif cls == "HG":
+                out.append(("f", name, "gq"))
             elif cls == "H2":
                 out.append(("f", name, "z"))
                 out.append(("ff", name, "inner", "q"))
@@ -321,7 +328,7 @@ class Gen:
         return dict(k="decl", name=name, n=n, tracked=tracked)
 
     def stmt_new(self):
-        cls = self.r.choice(["H1", "H1", "H2", "HT", "HA"] if self.p != "tracked" else ["HT", "HT", "HA", "H1"])
+        cls = self.r.choice(["H1", "H1", "H2", "HT", "HA", "HG"] if self.p != "tracked" else ["HT", "HT", "HA", "H1", "HG", "HG"])
         if self.p in ("flags", "flags_recycle") and self.r.random() < 0.4:
             cls = "HD"     # its destructor applies a gate to its qubit: a measured dq makes the death itself a misuse
         elif self.p in ("handles", "reset", "qasm") and self.r.random() < 0.2:
@@ -640,6 +647,9 @@ class Renderer:
         elif k == "new":
             if s.get("via") == "func":
                 self.emit(ind, "%s %s = mk%s();" % (s["cls"], s["name"], s["cls"]), s)
+            elif s["cls"] == "HG":
+                # a generic specialisation owning a @tracked qubit; the diamond form every other time
+                self.emit(ind, "HG<int> %s = new HG<%s>();" % (s["name"], "int" if len(s["name"]) % 2 else ""), s)
             else:
                 self.emit(ind, "%s %s = new %s();" % (s["cls"], s["name"], s["cls"]), s)
         elif k == "destroy":
@@ -1044,6 +1054,8 @@ class Model:
             tracked_expect.append(("HT.tq", self.outcome_str([idx])))
         if inst.cls == "HA":
             tracked_expect.append(("HA.ta", self.outcome_str(list(inst.q["ta"]))))
+        if inst.cls == "HG":
+            tracked_expect.append(("HG<int>.gq", self.outcome_str([inst.q["gq"]])))
         got = set()
         while len(got) < len(want):
             e = self.next_event(("sim", "tracked"))
@@ -1329,6 +1341,8 @@ class Model:
             inst.q["ta"] = [self.alloc("%s.ta[%d]" % (name, i)) for i in range(3)]
         elif cls == "HD":
             inst.q["dq"] = self.alloc("%s.dq" % name)
+        elif cls == "HG":
+            inst.q["gq"] = self.alloc("%s.gq" % name)
         elif cls == "H2":
             # fields are laid out in declaration order: inner (object), then z
             inst.q["z"] = self.alloc("%s.z" % name)
